@@ -29,11 +29,12 @@ RULE = (
     "boundary alphabet, nesting depth <=2) plus Hypothesis-generated deeper values plus the length guard; every value "
     "is hashed in-process and in a second interpreter with another PYTHONHASHSEED; all values are bucketed by "
     "signature and two values in one bucket must have the same canonical form (tuple->list, bool->int, path/date->text, "
-    "dict/dataclass->list of [key,value] pairs). Non-trivial = value contains a boundary int (outside 32 bits or at its "
+    "dict->list of [key,value] pairs; a dataclass is its own kind). Non-trivial = value contains a boundary int (outside 32 bits or at its "
     "edge), a special float, an empty container or a separator/marker-like string; distinct by encoded value."
 )
 ASSUMPTIONS = [
-    "dict/OrderedDict/dataclass == list of [key, value] pairs is treated as a documented identification (keep docstring: dictionaries are evaluated as lists)",
+    "dict/OrderedDict == list of [key, value] pairs is treated as a documented identification (keep docstring: dictionaries are evaluated as lists); "
+    "dataclass instances are only compared with dataclass instances of the same field names (one class per field-name set) and must differ from dicts and lists",
     "values that contain a general Python object may either be refused with TYPE_NOT_SUPPORTED or hashed",
 ]
 
@@ -50,7 +51,7 @@ ATOMS = [
     "datetime.date(2020, 1, 2)", "/a/b",
 ]
 SMALL = [None, True, 0, 1, 2 ** 31, 0.0, float("nan"), "", "a", "|", "__DDS_NONE__", pathlib.PurePosixPath("a")]
-KEYS = ["a", "", "|", 0, 1, None, "1", "0", "None", True, 1.0, "1.0"]
+KEYS = ["a", "b", "x", "", "|", 0, 1, None, "1", "0", "None", True, 1.0, "1.0"]   # "x", "a", "b" = the field names of DC1 / DC2
 
 
 def canon(v):
@@ -80,7 +81,8 @@ def canon(v):
     import dataclasses
 
     if dataclasses.is_dataclass(v):
-        return ["list", [["list", [canon(f.name), canon(getattr(v, f.name))]] for f in dataclasses.fields(v)]]
+        # no identification of a dataclass with a dict / list is documented: a dataclass is its own kind of value
+        return ["dataclass", [["list", [canon(f.name), canon(getattr(v, f.name))]] for f in dataclasses.fields(v)]]
     raise TypeError(type(v))
 
 
@@ -151,7 +153,7 @@ def depth1(atoms, keys, small):
             out.append({k: a})
         for a in small:
             out.append(collections.OrderedDict([(k, a)]))
-    for k1, k2 in itertools.permutations(keys[:5], 2):
+    for k1, k2 in itertools.permutations(keys[:6], 2):
         for a, b in itertools.product(small[:6], repeat=2):
             out.append({k1: a, k2: b})
     out.append(DC0())
